@@ -41,9 +41,11 @@ def plan(tier, seed):
         shards += plan_graph_shards("B", n_max=6, n_min=6, k=2, parts=16)
     out = []
     for s in shards:
-        for naming in ("identity", "adversarial"):
+        for naming in ("identity", "adversarial", "hyphen"):
             if tier == "quick" and s.get("edges") == 2 and naming != "identity":
                 continue  # quick: two-edge architectures on five modules under one naming only
+            if naming == "hyphen" and s["space"] != "A":
+                continue  # a sibling a-b sorts between a and a.x: the complete space only
             out.append(dict(s, naming=naming, bound=s["bound"] + f" naming={naming}"))
     req = [f"{v}/{e}/{o}" for v in ("should", "should_only", "should_not") for e in (False, True) for o in (PASS, FAIL)]
     return {"shards": out, "require_nonzero": req + ["anything/PASS", "anything/FAIL", "style:names", "style:regex", "style:mixed", "re-applied"]}
